@@ -53,6 +53,9 @@ func Gen(seed int64, idx int, prof string) Case {
 		if idx%16 == 9 {
 			theme = "transfer-deferred-then-batch-deferred"
 		}
+		if idx%32 == 13 {
+			theme = "action-expires-while-queued"
+		}
 	}
 	n := 1 + r.Intn(12)
 	if r.Intn(10) < 4 {
@@ -311,6 +314,42 @@ func Gen(seed int64, idx int, prof string) Case {
 			}
 			adapterFaults(kinds...)
 		}
+	case "action-expires-while-queued":
+		// the built-in basic adapter with fewer workers than objects: every action of the first answer lives 6 s,
+		// the first transfer keeps its worker busy for 7.5 s, so the objects queued behind it come up when their
+		// action's advertised expiry has passed: it must be re-requested (the second answer is long-lived), not used
+		c.Real = true
+		c.Upload = r.Intn(3) == 0
+		c.Objs = c.Objs[:0]
+		k := 2 + r.Intn(3)
+		for i := 0; i < k; i++ {
+			o := Obj{Size: int64(1 + r.Intn(5000)), Adds: 1, DataSeed: r.Int63()}
+			o.Oid = sha256hex(Content(o.DataSeed, o.Size))
+			c.Objs = append(c.Objs, o)
+		}
+		c.AddOrder = nil
+		for i := range c.Objs {
+			c.AddOrder = append(c.AddOrder, i)
+		}
+		c.BatchSize = k + r.Intn(3)
+		c.MaxRetries = 2 + r.Intn(7)
+		c.MaxDelay = []int{-1, 0, 1}[r.Intn(3)]
+		c.Concurrent = 1
+		if k > 3 && r.Intn(2) == 0 {
+			c.Concurrent = 2
+		}
+		c.AddGapUs = 0
+		c.DryRun = false
+		c.BeginError = false
+		c.BatchCalls = nil
+		c.ExtraUnknown = map[int]string{}
+		c.Adapter = map[string][]string{}
+		c.ObjBatch = map[string][]string{}
+		how := pick(r, "in:6", "in:6", "at:7")
+		for _, o := range c.Objs {
+			c.ObjBatch[o.Oid] = []string{how}
+		}
+		c.StorageFirst = "hold:7500"
 	case "deferred-plus-backoff":
 		// one retry round holds an object the server deferred with a Retry-After longer than
 		// lfs.transfer.maxretrydelay and objects that merely failed retriably: the latter must not wait for the former
